@@ -138,6 +138,10 @@ func cliExplore(c *core.Ctx, prop string, flagSets [][]string, vers []string, co
 						Name: fmt.Sprintf("%s procs=%d files=%d bound=%d php=%s", strings.Join(fl, " "), cf.Procs, cf.Files, cf.Bound, ver),
 						Files: cliFiles(cf.Files), Flags: fl, PhpVer: ver, Procs: cf.Procs, Bound: cf.Bound, Limit: 5000,
 						Dir: filepath.Join(tmp, fmt.Sprintf("x%d-%d", os.Getpid(), sh)), Shard: sh, Shards: split, Mode: "cli",
+						MaxExec: 25000, // per shard; a tool whose goroutines block at almost every step has a far larger schedule tree
+					}
+					if c.Thorough() {
+						sc.MaxExec = 200000
 					}
 					r, fail := cliRunOne(sc)
 					if fail != "" {
@@ -161,6 +165,7 @@ func cliExplore(c *core.Ctx, prop string, flagSets [][]string, vers []string, co
 					c.Nontrivial(fmt.Sprintf("cli/%s/%d", sc.Name, sh))
 					if r.Capped {
 						c.P.Capped = true
+						c.Note(fmt.Sprintf("command-line tool, %s, shard %d: stopped after %d executions (depth-first order; the rest of this shard's schedule tree is not explored)", sc.Name, sh, r.Schedules))
 					}
 					for _, v := range r.Violations {
 						rc := sc
